@@ -165,10 +165,10 @@ fn spec_hash(spec: &DocSpec) -> u64 { fnv(format!("{:?}", spec).as_bytes()) }
 
 struct Found { index: u64, tape: Vec<u32>, features: BTreeSet<String>, fails: Vec<Failure> }
 
-const OUT_OF_DOMAIN_COLOUR_SPACES: &str = "ColorSpace::to_primitive writes DeviceRGB, DeviceCMYK and Indexed only; DeviceGray, DeviceN, CalGray, CalRGB, CalCMYK, Separation, Icc, Pattern, Named and Other end in the catch-all arm and return Err(Unimplemented) (pdf/src/object/color.rs; probed each run, see colour_space_writer_probe), so they are kept out of the generated resources and image dictionaries";
+const OUT_OF_DOMAIN_COLOUR_SPACES: &str = "ColorSpace::to_primitive has no code for Separation and DeviceN (they need a writer for Function) and returns Err(Unimplemented) for them (pdf/src/object/color.rs; the other variants are probed each run, see colour_space_writer_probe), so these two are kept out of the generated resources and image dictionaries; ICCBased needs an RcRef into the target and is exercised by C15/C20 instead";
 
 pub fn run(run: &Run) {
-    run.rule("tape-generated documents: 0..6 pages (1 most often) x {operations from C08's domain without non-standard operands, <= 14 per page; MediaBox letter/A4/random/boundary-valued or absent; CropBox/TrimBox; Rotate 0, multiples of 90 (also negative and > 360), other values; 0..3 extra page entries (unmodelled spec keys and private keys with names, numbers, strings, arrays, dictionaries) plus a marker entry /C10Idx; /Metadata stream, /LGIDict, /VP; resources with Type1/TrueType fonts (widths, descriptor, encoding with differences, ToUnicode; direct or indirect), Type0 fonts with a CIDFontType0/2 descendant, ExtGState dictionaries, DeviceRGB/DeviceCMYK/Indexed colour spaces (lookup below and above the writer's 100-byte switch), image and form XObjects, tiling patterns, property lists} x {no info, info with any subset of the six text strings (ASCII, UTF-16BE, parentheses, EOLs, random bytes), dates, Trapped} x {cached, uncached builder}. Oracles: build succeeds; strict reload (cached and uncached) shows the same page count, order, boxes, rotation, extra entries, operations (C08 comparator), resources and info; independent validator (refimpl/c10_validate.rs) accepts header, startxref, xref stream (/W /Index /Size decoded by hand), entry offsets, /Size, stream /Length, references, duplicates, %%EOF and reads the same pages/rotation/MediaBox/info. distinct_nontrivial = distinct documents that were built and passed through both oracles.");
+    run.rule("tape-generated documents: 0..6 pages (1 most often) x {operations from C08's domain without non-standard operands, <= 14 per page; MediaBox letter/A4/random/boundary-valued or absent; CropBox/TrimBox; Rotate 0, multiples of 90 (also negative and > 360), other values; 0..3 extra page entries (unmodelled spec keys and private keys with names, numbers, strings, arrays, dictionaries) plus a marker entry /C10Idx; /Metadata stream, /LGIDict, /VP; resources with Type1/TrueType fonts (widths, descriptor, encoding with differences, ToUnicode; direct or indirect), Type0 fonts with a CIDFontType0/2 descendant, ExtGState dictionaries, DeviceRGB/DeviceCMYK/DeviceGray/Pattern/named/CalRGB/CalGray/Lab/Indexed colour spaces (lookup below and above the writer's 100-byte switch), image and form XObjects, tiling patterns, property lists} x {no info, info with any subset of the six text strings (ASCII, UTF-16BE, parentheses, EOLs, random bytes), dates, Trapped} x {cached, uncached builder}. Oracles: build succeeds; strict reload (cached and uncached) shows the same page count, order, boxes, rotation, extra entries, operations (C08 comparator), resources and info; independent validator (refimpl/c10_validate.rs) accepts header, startxref, xref stream (/W /Index /Size decoded by hand), entry offsets, /Size, stream /Length, references, duplicates, %%EOF and reads the same pages/rotation/MediaBox/info. distinct_nontrivial = distinct documents that were built and passed through both oracles.");
     run.assume("the validator refimpl/c10_validate.rs implements ISO 32000-1 7.5 (self-tested each run on files of the independent writer mkpdf with and without hand-made defects)");
     run.assume("a stream's /Length is right when it equals the number of bytes between the EOL after `stream` and the EOL marker before `endstream` (7.3.8.1); when the region ends in CR LF both readings of the marker are accepted");
     run.assume("/Size larger than highest object number + 1 is recorded as an observation (counter note:size-exceeds-highest+1), not as a violation: the property demands /Size above every object number");
@@ -191,7 +191,7 @@ pub fn run(run: &Run) {
         for (name, cs) in probes {
             let mut st = super::c15_gen::new_store();
             let r = match guard(|| cs.to_primitive(&mut st)) { Ok(Ok(_)) => "written".to_string(), Ok(Err(e)) => format!("error: {}", e), Err(p) => format!("panic: {}", p.signature()) };
-            if (r == "written") != ["DeviceRGB", "DeviceCMYK", "Indexed"].contains(&name) { run.inconclusive(format!("colour space probe: {} is now {}: the generator's domain needs revisiting", name, r)); }
+            if r != "written" { run.inconclusive(format!("colour space probe: {} is {}: the generator's domain needs revisiting", name, r)); }
             res.insert(name.to_string(), Value::String(r));
         }
         res.insert("DeviceN / Separation / Icc".into(), Value::String("not probed (need a Function / an ICC stream); same catch-all arm in the source".into()));
